@@ -5,6 +5,6 @@ CONSTANTS
   Progs <- ProgsTrace
   Interval = 10
   MaxNow = 0
-  DepartFix = TRUE
+  DepartFix = TRUE SkipEndedSubscriber = FALSE
 CONSTRAINT Done
 CHECK_DEADLOCK FALSE
